@@ -805,3 +805,31 @@ func calledOnlyUnderIsVariadic(w *World, root *Func) (bool, string) {
 	}
 	return true, ""
 }
+
+// dependsOn makes the verdict of rules of another property part of this one: what they decide is a premise here (Next
+// cannot be panic-free if the markup stage it calls is not; a restore cannot be faithful if the script functions read a
+// map the restore replaces). Every failing obligation of a premise is reported as a failing obligation of rule `as`,
+// naming the premise's construct; a premise with no obligation at all makes this rule undecided.
+func dependsOn(c *Ctx, as string, why string, rules ...string) {
+	for _, dep := range rules {
+		obs := otherRuleObligations(c.W, dep)
+		n, bad := 0, 0
+		for _, o := range obs {
+			if o.Rule != dep {
+				continue
+			}
+			n++
+			if !o.OK {
+				bad++
+				c.ob(as, dep+":"+o.Key, o.Pos, false, "premise "+dep+" fails ("+why+"): "+o.How)
+			}
+		}
+		if n == 0 {
+			c.undecided(as, "premise "+dep+" produced no obligation (its anchors were lost): "+why)
+			continue
+		}
+		if bad == 0 {
+			c.ob(as, dep, "-", true, "premise "+dep+" holds on "+itoa(n)+" obligations: "+why)
+		}
+	}
+}
